@@ -436,6 +436,31 @@ pub fn push_two_vamms(exps: &mut Vec<Exp>, depth: usize) {
     exps.push(e);
 }
 
+/// A deep pool and large positions (1e9 quote units against 1e8 base units, 9 decimals, trades of 1e7 x 10): the same
+/// alphabet and seeds as the standard pool, multiplied by 1e6 - magnitudes near the top of what the arithmetic sees.
+pub fn push_whale(exps: &mut Vec<Exp>, depth: usize) {
+    let m = 1_000_000u128;
+    let mut c = cfg_liq(true, true, 250_000);
+    c.dec = 9;
+    c.quote_reserve = 1000 * D * m;
+    c.base_reserve = 100 * D * m;
+    c.wallet = 5_000 * D * m;
+    c.if_funds = 5_000 * D * m;
+    let scale = |a: &Act| -> Act {
+        match a.clone() {
+            Act::Open { t, v, buy, margin, lev, limit } => Act::Open { t, v, buy, margin: margin * m, lev, limit },
+            Act::Dep { t, v, amt } => Act::Dep { t, v, amt: amt * m },
+            Act::Wd { t, v, amt } => Act::Wd { t, v, amt: amt * m },
+            x => x,
+        }
+    };
+    let alpha: Vec<Act> = liq_alpha(false).iter().map(scale).collect();
+    let seeds: Vec<Vec<Act>> = liq_seeds().iter().map(|s| s.iter().map(scale).collect()).collect();
+    let mut e = Exp::new("deep pool, large positions", c, alpha, seeds, depth);
+    e.traders = T3.to_vec();
+    exps.push(e);
+}
+
 /// Configuration changed mid-history: the owner's legal updates of the engine ratios and of the vAMM's fee and band
 /// settings are actions, interleaved with trades, liquidations and funding on positions opened under the old values.
 /// The oracles read the configuration in force (`World::live_cfg`).
@@ -583,6 +608,7 @@ pub fn run_c02(tier: Tier) -> i32 {
         push_dust(&mut exps, false, 4);
     }
     push_two_vamms(&mut exps, tier.pick(3, 4));
+    push_whale(&mut exps, tier.pick(2, 3));
     push_cfgchange(&mut exps, tier.pick(3, 4));
     push_dec9(&mut exps, tier.pick(1, 3), false);
     run_exps(&mut run, step_c02, exps, |_| {});
@@ -646,6 +672,7 @@ pub fn run_c03(tier: Tier) -> i32 {
         push_dust(&mut exps, false, 4);
     }
     push_two_vamms(&mut exps, tier.pick(3, 4));
+    push_whale(&mut exps, tier.pick(2, 3));
     push_cfgchange(&mut exps, tier.pick(3, 4));
     push_dec9(&mut exps, tier.pick(1, 3), false);
     run_exps(&mut run, step_c03, exps, |_| {});
@@ -797,11 +824,13 @@ pub fn run_c04(tier: Tier) -> i32 {
     run.rule = "every sequence over the alphabet up to the depth bound from each seed (incl. two fundings of opposite sign, vault drained); non-trivial = a ClosePosition that succeeded, or a trader transaction that lowered the insurance fund".into();
     run.nontrivial = vec!["c04:whole-close-ok".into(), "c04:partial-close-ok".into(), "c04:trader-tx-lowering-insurance-fund".into(), "c04:close-rejected-negative-equity".into()];
     let alpha = StdAlpha::basic(&T2).acts();
-    let seeds = vec![vec![], seed_liquidatable(), seed_two_fundings(), seed_vault_drained(), seed_funding_exceeds_margin()];
+    let seeds = vec![vec![], seed_liquidatable(), seed_two_fundings(), seed_vault_drained(), seed_funding_exceeds_margin(), seed_long_lived_market()];
     let mut exps = vec![];
     match tier {
         Tier::Quick => {
-            exps.push(Exp::new("base", cfg_with(true, true, 0), alpha.clone(), seeds.clone(), 4));
+            // depth 4 from the empty history, depth 3 from the seeds (which are 3-11 steps long themselves)
+            exps.push(Exp::new("base", cfg_with(true, true, 0), alpha.clone(), vec![vec![]], 4));
+            exps.push(Exp::new("base", cfg_with(true, true, 0), alpha.clone(), seeds[1..].to_vec(), 3));
             exps.push(Exp::new("base", cfg_with(false, false, 0), alpha.clone(), seeds.clone(), 3));
             let mut c = cfg_with(true, true, 250_000);
             c.fluct = 50_000;
@@ -829,6 +858,7 @@ pub fn run_c04(tier: Tier) -> i32 {
         push_dust(&mut exps, false, 4);
     }
     push_two_vamms(&mut exps, tier.pick(3, 4));
+    push_whale(&mut exps, tier.pick(2, 3));
     push_cfgchange(&mut exps, tier.pick(3, 4));
     push_dec9(&mut exps, tier.pick(1, 3), false);
     run_exps(&mut run, step_c04, exps, |_| {});
@@ -864,6 +894,12 @@ fn alpha_c05(w: &mut World, s: &EngSt) -> Vec<Act> {
         }
         acts.push(Act::close(t));
         acts.push(Act::Dep { t: t.into(), v: 0, amt: 5 * d + 1 });
+        // native collateral: the same deposit with one unit more / one unit less attached than the amount
+        if w.token.is_none() {
+            let dep = Act::Dep { t: t.into(), v: 0, amt: 5 * d + 1 };
+            acts.push(Act::Funded { a: Box::new(dep.clone()), funds: 5 * d + 2 });
+            acts.push(Act::Funded { a: Box::new(dep), funds: 5 * d });
+        }
         let to = observe_trader(w, 0, t);
         if let Some(p) = &to.pos {
             let vo = observe(w, &[]).vamms.remove(0);
@@ -1104,6 +1140,7 @@ pub fn run_c06(tier: Tier) -> i32 {
     push_sweep(&mut exps, tier.pick(2, 3));
     push_dust(&mut exps, true, tier.pick(3, 4));
     push_two_vamms(&mut exps, tier.pick(3, 4));
+    push_whale(&mut exps, tier.pick(2, 3));
     push_cfgchange(&mut exps, tier.pick(3, 4));
     push_dec9(&mut exps, tier.pick(1, 3), true);
     run_exps(&mut run, step_c06, exps, |_| {});
@@ -1173,6 +1210,7 @@ pub fn run_c07(tier: Tier) -> i32 {
     push_sweep(&mut exps, tier.pick(2, 3));
     push_dust(&mut exps, true, tier.pick(3, 4));
     push_two_vamms(&mut exps, tier.pick(3, 4));
+    push_whale(&mut exps, tier.pick(2, 3));
     push_cfgchange(&mut exps, tier.pick(3, 4));
     push_dec9(&mut exps, tier.pick(1, 3), false);
     run_exps(&mut run, step_c07, exps, |_| {});
@@ -1325,6 +1363,16 @@ fn step_c11(m: &EngModel, w: &mut World, s: &EngSt, a: &Act, out: &mut StepOut) 
     Some(EngSt { snap: so.post_snap.clone(), mon: book_to_mon(&nb) })
 }
 
+/// a long-lived market: 26 funding settlements with a non-zero premium while alice and bob hold positions
+fn seed_long_lived_market() -> Vec<Act> {
+    let mut v = vec![Act::open("alice", true, 25 * D, 2 * D), Act::open("bob", false, 20 * D, 2 * D), Act::Px { price: 9_900_000 }];
+    for _ in 0..26 {
+        v.push(Act::blk(3900));
+        v.push(Act::fund());
+    }
+    v
+}
+
 pub fn run_c11(tier: Tier) -> i32 {
     let mut run = Run::new("C11", tier.clone());
     run.rule = "every sequence over the alphabet (time steps around the funding time: +15 s, +29 min, +31 min, +59 min 59 s, +60 min, +61 min; oracle prices giving premium <0, =0, >0; PayFunding by anyone; all position operations) up to the depth bound; non-trivial = a settlement that succeeded, or a charging event on a position with funding owed".into();
@@ -1333,7 +1381,7 @@ pub fn run_c11(tier: Tier) -> i32 {
     al.blocks = vec![15, 1740, 1860, 3599, 3600, 3660];
     al.liquidators = vec![];
     let alpha = al.acts();
-    let seeds = vec![vec![], seed_funded(), seed_two_fundings(), seed_vault_drained(), seed_funding_exceeds_margin()];
+    let seeds = vec![vec![], seed_funded(), seed_two_fundings(), seed_vault_drained(), seed_funding_exceeds_margin(), seed_long_lived_market()];
     let mut exps = vec![];
     match tier {
         Tier::Quick => {
@@ -1351,6 +1399,7 @@ pub fn run_c11(tier: Tier) -> i32 {
     push_sweep(&mut exps, tier.pick(2, 3));
     push_dust(&mut exps, true, tier.pick(3, 4));
     push_two_vamms(&mut exps, tier.pick(3, 4));
+    push_whale(&mut exps, tier.pick(2, 3));
     push_cfgchange(&mut exps, tier.pick(3, 4));
     push_dec9(&mut exps, tier.pick(1, 3), false);
     run_exps(&mut run, step_c11, exps, |_| {});
@@ -1400,6 +1449,7 @@ pub fn run_c12(tier: Tier) -> i32 {
         push_dust(&mut exps, false, 4);
     }
     push_two_vamms(&mut exps, tier.pick(3, 4));
+    push_whale(&mut exps, tier.pick(2, 3));
     push_cfgchange(&mut exps, tier.pick(3, 4));
     push_dec9(&mut exps, tier.pick(1, 3), false);
     run_exps(&mut run, step_c12, exps, |_| {});
